@@ -231,7 +231,41 @@ func (dt *DateTime) Capture(values []string) error {
 	return err
 }
 
+// cMaxNestingDepth bounds how deep parentheses may be nested in a statement: the parser is recursive, every "(" costs
+// goroutine stack, and a stack overflow is fatal for the whole process
+const cMaxNestingDepth = 1000
+
+// checkNesting rejects a text whose parentheses (outside string literals) are nested deeper than cMaxNestingDepth
+func checkNesting(s string) error {
+	depth := 0
+	for i := 0; i < len(s); i++ {
+		switch s[i] {
+		case '"':
+			for i++; i < len(s) && s[i] != '"'; i++ {
+				if s[i] == '\\' {
+					i++
+				}
+			}
+		case '\'':
+			for i++; i < len(s) && s[i] != '\''; i++ {
+			}
+		case '(':
+			if depth++; depth > cMaxNestingDepth {
+				return fmt.Errorf("parentheses are nested deeper than %d levels", cMaxNestingDepth)
+			}
+		case ')':
+			if depth > 0 {
+				depth--
+			}
+		}
+	}
+	return nil
+}
+
 func ParseLql(lql string) (*Lql, error) {
+	if err := checkNesting(lql); err != nil {
+		return nil, err
+	}
 	res := &Lql{}
 	err := parserLql.ParseString(lql, res)
 	if err != nil {
@@ -249,6 +283,9 @@ func ParseExpr(where string) (*Expression, error) {
 		return nil, nil
 	}
 
+	if err := checkNesting(where); err != nil {
+		return nil, err
+	}
 	exp := &Expression{}
 	err := parserExpr.ParseString(where, exp)
 	if err != nil {
@@ -262,6 +299,9 @@ func ParseSource(source string) (*Source, error) {
 		return nil, nil
 	}
 
+	if err := checkNesting(source); err != nil {
+		return nil, err
+	}
 	src := &Source{}
 	err := parserSource.ParseString(source, src)
 	if err != nil {
